@@ -28,3 +28,10 @@ for name, line in res:
     m = re.search(r"keys=(\[.*?\])", line)
     print("%-24s %s %s" % (name, "DETECTED" if det else "MISSED/ERR", (m.group(1)[:150] if m else line[:200])))
 print("%d/%d detected" % (ok, len(res)))
+if not args:
+    out = {}
+    for name, line in res:
+        m = re.search(r"keys=(\[.*?\])", line)
+        out[name] = {"detected": "detected=yes" in line, "tier": tier,
+                     "keys": re.findall(r"'(C\d\d/[^']+)'", m.group(1)) if m else [], "raw": line[:300]}
+    json.dump(out, open(os.path.join(V, "seeded", "REGRESSION.json"), "w"), indent=1, sort_keys=True)
